@@ -985,6 +985,12 @@ func (rw *regWorld) apply(op string, judge bool) (viol []string, digest string, 
 		rt.WaitIdle()
 		judge = false
 		effect = true
+		// entities the reply lists and the stack (now) knows: adopted as well
+		for e := range keep {
+			if e != 0 && pe.Dev.Entity(spine.NewAddressEntityType(entAddr(e))) != nil {
+				m.ents[p][e] = true
+			}
+		}
 		for e := range m.ents[p] {
 			if e == 0 || pe.Dev.Entity(spine.NewAddressEntityType(entAddr(e))) != nil {
 				continue
